@@ -585,10 +585,7 @@ func (V *Verifier) solveRendered(o *Obligation, pass int) {
 				done = true
 			}
 			if !done && len(r.light) > 0 {
-				lt := time.Duration(V.opts.Timeout) * time.Second / 2
-				if lt < 2*time.Second {
-					lt = 2 * time.Second
-				}
+				lt := time.Duration(V.opts.Timeout) * time.Second
 				for d, ltext := range r.light {
 					lfile := strings.TrimSuffix(file, ".smt2") + fmt.Sprintf(".light%d.smt2", d+1)
 					os.WriteFile(lfile, []byte(ltext), 0644)
